@@ -750,13 +750,24 @@ def r13(R):
     bounds = {}
     for cls, meth in walkers:
         f = R.method(cls, meth)
+        # the walking position, by role: a local that is moved back by a
+        # length read from the file (`p = p - u64(read(8)) - 8`), or the
+        # search object's `pos` attribute
+        movers = set()
+        for a in walk_local(f.node):
+            if isinstance(a, ast.Assign) and any(
+                    isinstance(x, ast.Call) and dotted(x.func) and
+                    dotted(x.func)[-1] == 'u64' for x in ast.walk(a.value)):
+                movers |= {t.id for t in a.targets
+                           if isinstance(t, ast.Name)}
         for c in walk_local(f.node):
             if not (isinstance(c, ast.Compare) and len(c.ops) == 1):
                 continue
             from ..flow import cmp_sides
             for l, op, r in cmp_sides(c):
                 ld = dotted(l)
-                if ld and ld[-1] == 'pos' and isinstance(
+                if ld and (ld == ('self', 'pos') or (
+                        len(ld) == 1 and ld[0] in movers)) and isinstance(
                         r, ast.Constant) and isinstance(r.value, int) and \
                         not isinstance(r.value, bool):
                     # "the walk goes on while pos > K"
